@@ -64,6 +64,18 @@ func c16Program() *hs.Program {
 				&hs.For{Var: "x", Iter: hs.CallN("items"), Body: hs.Blk(nil, hs.ES(&hs.If{Cond: hs.Bin(">", hs.V("x"), hs.V("n")), Then: hs.Blk(nil, &hs.Return{X: hs.V("x")})}))}), hs.P("n", intT)),
 			// heap state reachable from a global persists from call to call
 			hs.Fn("grow", intT, hs.Blk(hs.MCall(hs.V("ITEMS"), "len"), hs.ES(hs.MCall(hs.V("ITEMS"), "push", hs.I(40))))),
+			// values built from literals are new on every call: what one call adds to them (a key set on
+			// an any-object, an element pushed onto an empty or a non-empty list, a field assigned) is not
+			// there when the next call evaluates the same literals
+			hs.Fn("fresh", intT, hs.Blk(
+				hs.Bin("+", hs.Bin("+", hs.Bin("*", hs.MCall(hs.MCall(hs.V("o"), "keys"), "len"), hs.I(1000)), hs.Bin("*", hs.MCall(hs.V("e"), "len"), hs.I(100))),
+					hs.Bin("+", hs.Bin("*", hs.MCall(hs.V("l"), "len"), hs.I(10)), hs.Bin("+", hs.Mem(hs.V("ob"), "a"), hs.MCall(hs.Idx(hs.V("nested"), hs.I(0)), "len")))),
+				hs.LetS("o", &hs.AnyObjLit{}), hs.ES(hs.MCall(hs.V("o"), "set", hs.Bin("+", hs.S("k"), hs.MCall(hs.V("n"), "to_string")), hs.V("n"))),
+				hs.LetT("e", hs.TList(intT), hs.List()), hs.ES(hs.MCall(hs.V("e"), "push", hs.V("n"))),
+				hs.LetS("l", hs.List(hs.I(1), hs.I(2))), hs.ES(hs.MCall(hs.V("l"), "push", hs.V("n"))),
+				hs.LetS("ob", &hs.ObjLit{Fields: []hs.ObjField{{Name: "a", X: hs.I(1)}}}), hs.ES(hs.Asg("+=", hs.Mem(hs.V("ob"), "a"), hs.V("n"))),
+				hs.LetS("nested", hs.List(hs.List(hs.I(0)))), hs.ES(hs.MCall(hs.Idx(hs.V("nested"), hs.I(0)), "push", hs.V("n"))),
+			), hs.P("n", intT)),
 			// an exception raised and caught in the same frame while operands are pending inside and
 			// outside the try: 100 + (try { 10 + <throws> } catch { 7 }) == 107
 			hs.Fn("caught", intT, hs.Blk(hs.Bin("+", hs.I(100), &hs.Try{
@@ -90,7 +102,7 @@ func (c hostCall) String() string {
 var c16Alphabet = []hostCall{
 	{"sub", []int64{1, 0}}, {"sub", []int64{0, 1}}, {"inc", nil}, {"get", nil}, {"early", []int64{0}}, {"early", []int64{2}},
 	{"boom", nil}, {"viacallee", nil}, {"deep", []int64{3}}, {"obj", nil}, {"caught", nil}, {"launch", nil}, {"getdone", nil},
-	{"firstover", []int64{15}}, {"firstover", []int64{5}}, {"grow", nil},
+	{"firstover", []int64{15}}, {"firstover", []int64{5}}, {"grow", nil}, {"fresh", []int64{1}}, {"fresh", []int64{2}},
 }
 
 var sp = herrors.Span{}
@@ -103,7 +115,7 @@ func c16Signature(fn string) runtime.FunctionInvocationSignature {
 	switch fn {
 	case "sub":
 		return runtime.FunctionInvocationSignature{Params: []runtime.FunctionInvocationSignatureParam{param("a"), param("b")}, ReturnType: intT}
-	case "early", "deep", "firstover":
+	case "early", "deep", "firstover", "fresh":
 		return runtime.FunctionInvocationSignature{Params: []runtime.FunctionInvocationSignatureParam{param("n")}, ReturnType: intT}
 	case "obj":
 		return runtime.FunctionInvocationSignature{ReturnType: ast.NewObjectType([]ast.ObjectTypeField{
